@@ -130,7 +130,13 @@ func (r *Report) Case(sig string, nontrivial bool) {
 	if nontrivial {
 		r.distinct[sig] = struct{}{}
 	}
+	partial := r.evaluations%200 == 0
 	r.mu.Unlock()
+	if partial && os.Getenv("VERIF_OUT") != "" {
+		// keep a partial result on disk: a crash of the system under test must not erase
+		// what the lane had observed so far
+		r.write(false)
+	}
 }
 
 func (r *Report) Obs(name string, n int64) {
@@ -209,7 +215,9 @@ func (r *Report) NumFindings() int {
 }
 
 // Flush writes the lane result.
-func (r *Report) Flush() {
+func (r *Report) Flush() { r.write(true) }
+
+func (r *Report) write(done bool) {
 	r.mu.Lock()
 	defer r.mu.Unlock()
 	for name, s := range r.sets {
@@ -234,7 +242,7 @@ func (r *Report) Flush() {
 		"assumptions":   r.assumptions,
 		"rule":          r.rule,
 		"inconclusive":  r.inconclusive,
-		"done":          true,
+		"done":          done,
 	}
 	b, err := json.Marshal(out)
 	if err != nil {
@@ -244,7 +252,7 @@ func (r *Report) Flush() {
 		if err := os.WriteFile(p, b, 0o644); err != nil {
 			r.t.Fatalf("rep: %v", err)
 		}
-	} else {
+	} else if done {
 		r.t.Logf("evaluations=%d distinct=%d observed=%v", r.evaluations, len(dk), r.observed)
 		for k, n := range r.findingCount {
 			r.t.Errorf("VIOLATION key=%s count=%d", k, n)
@@ -260,7 +268,7 @@ func (r *Report) Flush() {
 			r.t.Logf("  inconclusive: %s", s)
 		}
 	}
-	if r.journal != nil {
+	if done && r.journal != nil {
 		r.journal.Close()
 	}
 }
